@@ -282,6 +282,34 @@ def feature (a : Args) : Option String := do
   let crisp := stable d2 t (t * m) && stable b2 t (t * m * ae)
   some s!"under={showBool under} snapped={showBool snapped} area={showBool areaw} crisp={showBool crisp}"
 
+/-- `cover t= areas= traces= branches=`: the geometric conservation facts of C04, decided exactly:
+`ontrace` every branch vertex and segment midpoint is within t of some trace; `inarea` … is inside
+the areas or within t of their boundary; `overlap` some two branches share a collinear stretch of
+positive length; `uncovered` number of sample points (vertices and quarter points) of long clip
+pieces farther than `2.02 t` from every branch; `clip2` squared segment lengths of all clip pieces -/
+def cover (a : Args) : Option String := do
+  let t ← (a.get? "t") >>= parseRat?
+  let areas ← (a.get? "areas") >>= parseArea?
+  let traces ← (a.get? "traces") >>= parseLines?
+  let branches ← (a.get? "branches") >>= parseLines?
+  let polys := allPolys areas
+  let t2 := t * t
+  let samplePts := fun (l : Polyline) => l ++ (segs l).flatMap fun (x, y) => [Pt.lerp x y (1/4), Pt.lerp x y (1/2), Pt.lerp x y (3/4)]
+  let nearTraces := fun (p : Pt) => traces.any fun l => decide ((ptLineDist2 p l).getD 1 < t2)
+  let ontrace := branches.all fun b => (samplePts b).all nearTraces
+  let inarea := branches.all fun b => (samplePts b).all fun p => inAreaClosed polys p || decide (Contacts.boundaryD2 polys p < t2)
+  let bsegs := (branches.zipIdx).flatMap fun (b, i) => (segs b).map fun sg => (i, sg)
+  let overlap := bsegs.any fun (i, (p, q)) => bsegs.any fun (j, (u, v)) =>
+    i < j && (match segInter p q u v with | .overlap _ _ => true | _ => false)
+  -- distinct traces only (exact duplicates are one trace)
+  let uniq := traces.eraseDups
+  let pieces := uniq.flatMap fun l => clipLine l polys
+  let lim := (202 / 100 * t) * (202 / 100 * t)
+  let longEnough := fun (pc : Polyline) => decide ((segLens2 pc).sum > (201 / 100 * t) * (201 / 100 * t) * 4)
+  let uncovered := (pieces.filter longEnough).flatMap fun pc => (samplePts pc).filter fun p =>
+    !(branches.any fun b => decide ((ptLineDist2 p b).getD (lim + 1) < lim))
+  some s!"ontrace={showBool ontrace} inarea={showBool inarea} overlap={showBool overlap} uncovered={uncovered.length} first={match uncovered with | p :: _ => showPt p | [] => "-"} clip={showLines pieces}"
+
 /-- `defects traces=`: documented defect strings per trace on a crisp configuration -/
 def defects (a : Args) : Option String := do
   let traces ← (a.get? "traces") >>= parseLines?
@@ -352,6 +380,7 @@ def dispatch (line : String) : String :=
       | "rel" => Cmd.rel a
       | "validate" => Cmd.validate a
       | "defects" => Cmd.defects a
+      | "cover" => Cmd.cover a
       | "insertpt" => Cmd.insertpt a
       | "feature" => Cmd.feature a
       | "tuplerepr" => Cmd.tuplerepr a
